@@ -92,6 +92,33 @@ def mid_stream(rnd, n):
     return out
 
 
+def block_stream(rnd, n):
+    """>= 2000 rows whose value conventions change exactly at 1000-row boundaries: each block alone satisfies a relation
+    that the whole column does not (the String -> Boolean maps, date formats, int-like vs float-like text)"""
+    convs = [("['yes', 'no']", "['true', 'false']"), ("['y', 'n']", "['True', 'False']"), ("['TRUE', 'FALSE']", "['yes', 'no']"),
+             ("['1', '2']", "['a', 'b']"), ("['1', '2']", "['1.5', '2.5']"), ("['2020-01-01', '2021-06-15']", "['x y', 'z']"),
+             ("['1.0', '2.0']", "['yes', 'no']"), ("[1.0, 2.0]", "[1.5, 2.5]"), ("['http://a.b/c', 'http://d.e/f']", "['a', 'b']")]
+    out = []
+    for a, b in convs:
+        for shape in ("{a} * 500 + {b} * 500", "{b} * 500 + {a} * 1000", "{a} * 1500 + {b} * 500", "{a} * 500 + [None] * 1000 + {b} * 500"):
+            r = "pd.Series(" + shape.format(a=a, b=b) + ")"
+            out.append({"recipe": r, "family": "block", "pool": a + "|" + b, "dtype": "None", "nulls": "none", "null": None, "len": 2000, "index": "None"})
+    rnd.shuffle(out)
+    return out[:n]
+
+
+def dupindex_stream(rnd, n):
+    """contaminated long series under a non-unique index: every label is shared by many rows, so a contaminant always
+    shares its label with sampled rows"""
+    out = []
+    for it in streams.long_stream(rnd, n):
+        if not it.get("contaminants"):
+            continue
+        m = rnd.choice([1, 7, 100])
+        out.append(dict(it, recipe=f"(lambda s: s.set_axis(np.arange(len(s)) % {m}))({it['recipe']})", index=f"mod{m}", pool=it["pool"] + "-dupindex"))
+    return out
+
+
 def replay(path):
     r = json.load(open(path))
     if "recipe" not in r:
@@ -114,7 +141,7 @@ def run(args):
     info = C.std_coq_phase(run, ["engine"], TARGETS, PROP_FILE)
     broken = bool(run.failed_obligations())
     deep = args.tier == "thorough" or broken
-    items = (streams.long_stream(rnd, 400 if deep else 40) + mid_stream(rnd, 200 if deep else 25)
+    items = (block_stream(rnd, 36 if deep else 8) + dupindex_stream(rnd, 60 if deep else 12) + streams.long_stream(rnd, 400 if deep else 40) + mid_stream(rnd, 200 if deep else 25)
              + streams.special_stream() + streams.family_stream(rnd, 1500 if deep else 200) + streams.bank_stream())
     tss = streams.shipped_typesets()
     ctx = {"typesets": {"StandardSet": tss["StandardSet"], "CompleteSet": tss["CompleteSet"]} if deep else {"StandardSet": tss["StandardSet"]},
